@@ -73,6 +73,7 @@ std::string HistRun<Mesh>::compare_loaded(const Dst &d, R &r, bool ascii, bool c
     std::set<std::string> expected_keys, loaded_keys;
     for (auto &mp : r.props) if (mp.attached && mp.persistent) expected_keys.insert(std::to_string(mp.kind) + "/" + mp.name);
     for (auto &rec : r.io) if (!ascii || rec.ascii_ok) { if (!ascii && rec.type.rfind("ascii:", 0) == 0) continue; expected_keys.insert(std::to_string(rec.kind) + "/" + rec.name); }
+    if (r.pos_persistent) expected_keys.insert(std::to_string((int)KV) + "/ovm:position");
     for (auto &pi : list_persistent(d)) loaded_keys.insert(std::to_string(pi.kind) + "/" + pi.name);
     if (expected_keys != loaded_keys) {
         std::string a, b;
@@ -139,6 +140,7 @@ template <class Mesh> std::string HistRun<Mesh>::compare_decoded(const IFile &f,
         else if (p->def != d) return "default of '" + mp.name + "'";
         for (int s = 0; s < r.nslots(mp.kind); ++s) { if ((int)p->elems.size() <= s || !p->have[s] || p->elems[s] != canon(mp.get(r.key_of_slot(mp.kind, s)))) return "value " + std::to_string(s) + " of '" + mp.name + "'"; }
     }
+    if (r.pos_persistent) ++expected;
     if (f.props.size() != expected) return "directory lists " + std::to_string(f.props.size()) + " properties, expected " + std::to_string(expected);
     return "";
 }
@@ -285,7 +287,7 @@ template <class Mesh> void HistRun<Mesh>::op_roundtrip(R &r, const Op &q) {
 }
 
 template <class Mesh> void HistRun<Mesh>::op_restart(R &r, const Op &q) {
-    if (r.m.needs_gc() || reps.size() >= 3) return;
+    if (r.m.needs_gc() || reps.size() >= 3 || r.pos_persistent) return;   // (a persistent position is written as an ordinary property and comes back as a second, separate property of that name)
     std::string img; WriteFaults wf;
     if (save_ovmb(*r.mesh, img, wf) != IO::WriteResult::Ok) ctx.fail({"C06"}, "ovmb-write-failed", "restart");
     std::unique_ptr<Mesh> nm(new Mesh());
